@@ -77,11 +77,21 @@ func (o *orC20) onIterLeave(it *iterRec) {
 	if o.n%4 != 0 {
 		return
 	}
-	o.gor = append(o.gor, runtime.NumGoroutine())
-	o.conns = append(o.conns, int(openConns.Load()))
+	g := runtime.NumGoroutine()
 	if o.m.s.spec.World.Steady {
-		o.byRoot = append(o.byRoot, o.goroutinesByRoot())
+		// count what belongs to living daemon processes only: a finished command-line run is a
+		// process that has exited, its logger goroutines stay behind in this one
+		c := o.goroutinesByRoot()
+		o.byRoot = append(o.byRoot, c)
+		if c != nil {
+			g = 0
+			for _, n := range c {
+				g += n
+			}
+		}
 	}
+	o.gor = append(o.gor, g)
+	o.conns = append(o.conns, int(openConns.Load()))
 }
 
 func minOf(x []int) int {
